@@ -10,6 +10,7 @@ kept below and the classes found by the search are listed as findings.
 -/
 import Comrak.Cm
 import Comrak.Lemmas.Cm
+import Comrak.Lemmas.CmCanonC
 namespace Comrak.C17
 open Comrak Bytes Comrak.Cm
 
@@ -88,5 +89,89 @@ theorem cm_end_list_after_empty_item_counterexample :
   decide +kernel
 
 example : (({} : St).blankline).needCr = 2 := by decide
+
+/-! ## The canonical class: on a canonical document the writer reproduces the document's own text -/
+
+section Canon
+open Comrak.Canon Comrak.CmCanon
+
+/-- **The writer's fixed point on the canonical class (partial).** For a canonical document `d`
+    (`Doc.ok`) in the sub-class `Doc.cmOk`, the CommonMark writer model with default options,
+    run on the tree the document spells (`d.toTree`, the tree the K harness compares with comrak's
+    parse of `d.write`), writes exactly `d.write`, byte for byte.
+
+    `Doc.cmOk` (decidable; `Comrak/Lemmas/CmCanonB.lean`, `CmCanonC.lean`) fixes the spelling to
+    the writer's choices and restricts the class:
+    * blocks: paragraphs, ATX headings (level >= 1), the thematic break `-----` (not as the first
+      block of a list item or block quote, where the writer first ends the marker's line), block
+      quotes holding exactly one block that is not a thematic break (and a list only where no
+      tight list item encloses the quote), bullet lists with marker `-` and ordered lists (any
+      start number, `.` or `)`; the writer's decimal marker is proved equal to the document's),
+      tight or loose, nested to any depth, with or without task markers (`[ ]`, `[x]`), whose
+      items are non-empty and contain no blank line (all lines of an item non-empty: a loose list
+      has one-block items, lists nested in items are tight) - the writer puts the container prefix
+      (with its trailing spaces) on blank lines inside containers, `Doc.write` does not; no list
+      directly followed by a list (the writer separates them by `<!-- end list -->`);
+    * inlines: text made of bytes the writer never escapes (ASCII letters, digits, space,
+      `, ; ? / { } @ %`, bytes >= 0x80 and the table's Unicode atoms) and of backslash escapes of
+      exactly the marks the writer escapes everywhere (`* _ [ ] # < > \ ` !`), emphasis `*..*` and
+      strong `**..**` (star delimiters; no strong directly inside strong, whose delimiters the
+      writer drops; no emphasis as the only child of an emphasis, which the writer spells `_`),
+      strikethrough `~~..~~`, code spans whose tick count is the writer's
+      `shortestUnusedSequence` and that need no padding, inline links and images
+      `[text](dest)`, `[text](dest "title")`, `![alt](dest)` with a non-empty destination without
+      angle brackets and a title, both made of bytes the writer does not escape there, the link
+      not being one the writer abbreviates to an autolink, angle autolinks `<scheme:rest>`
+      (not `mailto:`, whose scheme the writer drops), backslash hard breaks and soft breaks (not
+      in headings);
+    * no reference definitions, no footnotes.
+    Excluded constructs: setext headings, fenced and indented code, HTML blocks, tables,
+    reference-style links, `mailto:` autolinks, entities and numeric references, backslash escapes of other
+    punctuation (the writer drops or keeps them depending on context), raw HTML, footnote
+    references, text containing a byte the writer escapes only in some contexts
+    (`& - + = . ) ~ | : " ' ( $ ^`), block quotes with several blocks, loose lists with
+    multi-block items, a list inside a quote inside a tight list item.
+    The hypothesis `d.ok` is not used by the proof; it records that the statement is about the
+    canonical class, on which the two correspondences (K: comrak parses `d.write` to `d.toTree`,
+    S: `renderCm` = `format_commonmark`) are checked. -/
+theorem cm_fixed_point_canon_partial (d : Doc) (_h : d.ok = true) (hc : d.cmOk = true) :
+    renderCm {} d.toTree = d.write :=
+  cm_fixed d hc
+
+/-- **Idempotence on the class, modulo the parser correspondence.** For any function `parse` that
+    maps the text of `d` to the tree `d` spells (what K checks for comrak's `parse_document`), the
+    writer's output on `d`'s tree is a fixed point of `write . parse`: formatting the re-parsed
+    output gives the same bytes. -/
+theorem cm_idempotent_canon_partial (parse : Bytes → Tree) (d : Doc) (h : d.ok = true) (hc : d.cmOk = true)
+    (hK : parse d.write = d.toTree) :
+    renderCm {} (parse (renderCm {} d.toTree)) = renderCm {} d.toTree := by
+  rw [cm_fixed_point_canon_partial d h hc, hK, cm_fixed_point_canon_partial d h hc]
+
+/-- Non-vacuity: a heading, a tight bullet list with a nested ordered list, a task item, emphasis,
+    strong, strikethrough, a link with a title, an escaped `*`, a soft break, a block quote with a
+    code span, a quoted list, a thematic break and a loose ordered list running from 9 to 10. -/
+def canonCmExample : Doc :=
+  let txt (s : List UInt8) : Inl := .text (s.map Atom.ch)
+  { blocks := Blks.ofList [
+      .heading 2 (Inls.ofList [txt [0x54, 0x69]]),
+      .list { tight := true } (Items.ofList [
+        Blks.ofList [.para (Inls.ofList [txt [0x6F, 0x6E, 0x65, 0x20], .emph false (Inls.ofList [txt [0x65, 0x6D]])]),
+                     .list { ordered := true, start := 1, paren := true, tight := true } (Items.ofList [Blks.ofList [.para (Inls.ofList [txt [0x69, 0x6E, 0x20],
+                        .strong false (Inls.ofList [txt [0x73, 0x74]])])]])],
+        Blks.ofList [.para (Inls.ofList [.text [.ch 0x74, .esc 0x2A, .ch 0x6F], .soft, txt [0x6D]])]]),
+      .quote (Blks.ofList [.para (Inls.ofList [txt [0x71, 0x20], .code 1 [0x78], txt [0x20],
+        .link [0x75, 0x2F, 0x76] [0x74, 0x20, 0x74] false .inline (Inls.ofList [txt [0x6C, 0x20], .strike (Inls.ofList [txt [0x73]])])])]),
+      .quote (Blks.ofList [.list { tight := true } (Items.ofListT [(.checked 0x78, Blks.ofList [.para (Inls.ofList [txt [0x64]])]),
+        (.unchecked, Blks.ofList [.para (Inls.ofList [txt [0x65]])])])]),
+      .hr 0x2D 5,
+      .list { ordered := true, start := 9, tight := false } (Items.ofList [Blks.ofList [.para (Inls.ofList [txt [0x61]])],
+                                               Blks.ofList [.para (Inls.ofList [txt [0x62]])]]) ] }
+
+example : canonCmExample.ok = true ∧ canonCmExample.cmOk = true := by decide +kernel
+
+example : renderCm {} canonCmExample.toTree = canonCmExample.write :=
+  cm_fixed_point_canon_partial _ (by decide +kernel) (by decide +kernel)
+
+end Canon
 
 end Comrak.C17
